@@ -204,6 +204,28 @@ func Program(t *rapid.T, f PFlags) Prog {
 			sc = sc.with(tvar{name, TAny})
 		}
 	}
+	// a closure with a persistent private scope that reads a global; the global is re-defined
+	// between two calls (a binding is looked up when it is used, not when the closure was made)
+	if Chance(t, "global-redef", 4) {
+		g.use("global-redefinition")
+		g.use("closure-capture")
+		k, gn := "kr", "gr"
+		forms = append(forms, call("def", sym(k), val.I(g.pick("kr0", 9))))
+		body := call("+", sym("a"), call("+", sym(k), sym("c")))
+		switch g.pick("redefkind", 3) {
+		case 0:
+			forms = append(forms, call("def", sym(gn), call("let", lst(sym("c"), val.I(g.pick("c0", 5))), call("fn", lst(sym("a")), body))))
+		case 1:
+			forms = append(forms, call("def", sym("mkr"), call("fn", lst(sym("c")), call("fn", lst(sym("a")), body))),
+				call("def", sym(gn), call("mkr", val.I(g.pick("c1", 5)))))
+		default:
+			forms = append(forms, call("def", sym(gn), call("let", lst(sym("c"), val.I(1)), call("fn", lst(sym("a")), call("do", call("trace!", sym(k)), body)))))
+		}
+		forms = append(forms, call("trace!", call(gn, val.I(1))))
+		forms = append(forms, call("def", sym(k), val.I(10+g.pick("kr1", 9))))
+		forms = append(forms, call("trace!", call(gn, val.I(1))))
+		sc = sc.with(tvar{k, TInt}, tvar{gn, TFn})
+	}
 	// every closure-collecting loop is consumed at least once
 	for _, rc := range append(sc.of(tRecC0), sc.of(tRecC1)...) {
 		arg := lst(sym("f"))
